@@ -20,6 +20,7 @@ RULE = ('full product: error = mantissa x 10^e (e=-15..15; 11 mantissas (thoroug
 ASSUMPTIONS = ["one floating multiplication inside the formatter is granted 1e-15 relative slack",
                'printing more digits than requested is accepted (statement is silent); fewer is a violation']
 EXHAUSTIVE = True
+REPEAT = 2      # every case is evaluated twice in the same process: the second verdict must equal the first (call-history oracle)
 
 MANT = [1.0, 1.04, 1.05, 1.5, 2.5, 9.4, 9.49, 9.5, 9.95, 9.96, 9.9995]
 RATIOS = [0.0, 1e-3, -1e-3, 0.5, -0.5, 1.0, -1.0, 9.96, -9.96, 1e3, -1e3, 1e6, -1e6]
